@@ -706,6 +706,29 @@ Proof.
 Qed.
 
 
+(* ledgers only grow, by appending *)
+Definition gl_ext (gl gl' : ledger) : Prop := forall t, firstn (length (gl t)) (gl' t) = gl t.
+Lemma gl_ext_refl gl : gl_ext gl gl.
+Proof. intros t. apply firstn_all. Qed.
+Lemma gl_ext_trans g1 g2 g3 : gl_ext g1 g2 -> gl_ext g2 g3 -> gl_ext g1 g3.
+Proof.
+  intros H1 H2 t. specialize (H1 t). specialize (H2 t).
+  assert (L : (length (g1 t) <= length (g2 t))%nat).
+  { rewrite <- H1 at 1. rewrite firstn_length. lia. }
+  transitivity (firstn (length (g1 t)) (firstn (length (g2 t)) (g3 t))).
+  - rewrite firstn_firstn. f_equal. lia.
+  - rewrite H2. exact H1.
+Qed.
+Lemma gl_ext_set_app gl t X : gl_ext gl (gl_set gl t (gl t ++ X)).
+Proof.
+  intros t0. unfold gl_set. destruct (N.eqb_spec t0 t) as [->|]; [|apply firstn_all].
+  rewrite firstn_app, Nat.sub_diag, firstn_all. cbn. apply app_nil_r.
+Qed.
+Lemma gl_ext_set_empty gl t L : gl t = [] -> gl_ext gl (gl_set gl t L).
+Proof.
+  intros E t0. unfold gl_set. destruct (N.eqb_spec t0 t) as [->|]; [rewrite E; reflexivity|apply firstn_all].
+Qed.
+
 (* ---------------- the full invariant and its preservation ---------------- *)
 Definition FI (s : sys) (gl : ledger) : Prop :=
   exists a, R cfg s a /\ Vote.Inv n q a /\ Vote.Inv8 a /\ LMI cfg s gl a /\ LCI s gl a.
@@ -820,7 +843,7 @@ Lemma fi_leader s gl o i x :
   FI s gl -> fst (gstep cfg ru s o) = upd_node s i x [] -> i < n_nodes cfg ->
   rl (nd_of s i) = Candidate -> rl x = Leader -> log x = log (nd_of s i) -> term x = term (nd_of s i) ->
   votes x <> [] -> N.leb (quorum cfg) (llen (votes x)) = true ->
-  FI (upd_node s i x []) (gl_set gl (term x) (log x)).
+  FI (upd_node s i x []) (gl_set gl (term x) (log x)) /\ gl (term x) = [].
 Proof.
   intros [a [HR [HI [H8 [HM HC]]]]] E Hi Hc Hl Hlog Hterm Hvne Hquo.
   destruct (sim_step cfg ru quorum_ok s a o HR) as [a' [S01 HR']]. rewrite E in HR'.
@@ -836,9 +859,19 @@ Proof.
     destruct (N.eqb_spec (N.of_nat j) i) as [Eji|Hne].
     + left. cbn in T'. subst t. f_equal. lia.
     + exfalso. cbn in L', C0. destruct (rl (nd_of s (N.of_nat j))); cbn in *; discriminate. }
-  exists a'. split; [exact HR'|]. split; [exact HI'|]. split; [exact H8'|]. split.
-  - apply (lmi_leader cfg quorum_ok s gl a (upd_node s i x []) a' i x); auto.
-  - apply (lci_leader s gl a a' i x); auto.
+  split.
+  - exists a'. split; [exact HR'|]. split; [exact HI'|]. split; [exact H8'|]. split.
+    + apply (lmi_leader cfg quorum_ok s gl a (upd_node s i x []) a' i x); auto.
+    + apply (lci_leader s gl a a' i x); auto.
+  - (* no leader of that term existed, so its ledger is still empty *)
+    destruct (gl (term x)) as [|e0 l0] eqn:Eg; [reflexivity|exfalso].
+    destruct (lm_G1 _ _ _ _ HM (term x)) as [j Hj]; [rewrite Eg; discriminate|].
+    assert (Hme : Ld a' (term x) i).
+    { pose proof (Vote.I7 _ _ _ HI' (N.to_nat i)) as G. rewrite (R_nodes _ _ _ HR' i Hi) in G.
+      rewrite (nth_upd s a) in G by assumption. rewrite N.eqb_refl in G. cbn in G. rewrite Hl in G. apply G. reflexivity. }
+    pose proof (Vote.election_safety n q quorum_ok a' HI' _ _ _ (Hmono _ Hj) Hme) as Eji.
+    assert (j = i) by lia. subst j.
+    apply (lm_G3 _ _ _ _ HM _ _ Hj); [lia|exact Hc].
 Qed.
 
 
@@ -847,15 +880,15 @@ Lemma T1_cand s gl a i x :
   forall e, In e (log x) -> eterm e < term x.
 Proof. intros HM Hl Ht e He. rewrite Hl in He. pose proof (lm_T1 _ _ _ _ HM i e He). lia. Qed.
 
-Theorem fi_step : forall s gl o, FI s gl -> exists gl', FI (fst (gstep cfg ru s o)) gl'.
+Theorem fi_step : forall s gl o, FI s gl -> exists gl', FI (fst (gstep cfg ru s o)) gl' /\ gl_ext gl gl'.
 Proof.
   intros s gl o HF.
-  assert (Stay : exists gl', FI s gl') by (exists gl; exact HF).
+  assert (Stay : exists gl', FI s gl' /\ gl_ext gl gl') by (exists gl; split; [exact HF|apply gl_ext_refl]).
   pose proof HF as [a0 [HR0 [HI0 [H80 [HM0 HC0]]]]].
   destruct o as [i|i|i|i|i p ok|k ok|i]; cbn [gstep].
   - (* GElect *)
     unfold valid_id. destruct (N.ltb_spec i (n_nodes cfg)) as [Hi|]; cbn [fst]; [|exact Stay].
-    exists gl. eapply (fi_frame s gl (GElect i)); eauto.
+    exists gl. split; [|apply gl_ext_refl]. eapply (fi_frame s gl (GElect i)); eauto.
     + cbn [gstep]. unfold valid_id. destruct (N.ltb_spec i (n_nodes cfg)); [reflexivity|lia].
     + apply (K1_elect cfg quorum_ok).
     + intros _. apply (T1_cand s gl a0 i); auto. cbn. lia.
@@ -872,7 +905,7 @@ Proof.
     assert (Hpv : forall d m0, In (d, m0) (pv_msgs cfg i (start_pre_vote i (nd_of s i))) -> exists a1 b1 c1 d1, m0 = PV a1 b1 c1 d1).
     { intros d m0 Hin. unfold pv_msgs in Hin. destruct (last_info _) as [a1 b1].
       apply in_map_iff in Hin. destruct Hin as [pp [E _]]. injection E as <- <-. eauto. }
-    exists gl. eapply (fi_frame s gl (GPreVote i)); eauto.
+    exists gl. split; [|apply gl_ext_refl]. eapply (fi_frame s gl (GPreVote i)); eauto.
     + cbn [gstep]. unfold valid_id. destruct (N.ltb_spec i (n_nodes cfg)); [reflexivity|lia].
     + apply (K1_same cfg quorum_ok); reflexivity.
     + cbn [start_pre_vote rl log term]. apply (c_cand _ _ _ HC0 i Hi).
@@ -881,7 +914,7 @@ Proof.
   - (* GRequestVotes *)
     unfold valid_id. destruct (N.ltb_spec i (n_nodes cfg)) as [Hi|]; cbn [fst]; [|exact Stay].
     destruct (rl (nd_of s i)) eqn:Er; try exact Stay.
-    exists gl. eapply (fi_frame s gl (GRequestVotes i)); eauto.
+    exists gl. split; [|apply gl_ext_refl]. eapply (fi_frame s gl (GRequestVotes i)); eauto.
     + cbn [gstep]. unfold valid_id. destruct (N.ltb_spec i (n_nodes cfg)); [|lia]. rewrite Er. reflexivity.
     + apply (K1_refl cfg quorum_ok).
     + intros _. apply (c_cand _ _ _ HC0 i Hi Er).
@@ -901,7 +934,7 @@ Proof.
     { intros d m0 Hin. unfold heartbeat_msgs in Hin. destruct (rl (nd_of s i)) eqn:Er; try contradiction.
       apply in_map_iff in Hin. destruct Hin as [pp [E Hp]]. destruct (entries_for (nd_of s i) pp) as [[pi0 pt0] es0] eqn:Ee.
       injection E as <- <-. split; [reflexivity|]. split; [exact Hp|]. eauto. }
-    exists gl. eapply (fi_frame s gl (GHeartbeat i)); eauto.
+    exists gl. split; [|apply gl_ext_refl]. eapply (fi_frame s gl (GHeartbeat i)); eauto.
     + cbn [gstep]. unfold valid_id. destruct (N.ltb_spec i (n_nodes cfg)); [reflexivity|lia].
     + apply (K1_refl cfg quorum_ok).
     + apply (c_cand _ _ _ HC0 i Hi).
@@ -919,8 +952,8 @@ Proof.
   - (* GPropose *)
     unfold valid_id. destruct (N.ltb_spec i (n_nodes cfg)) as [Hi|]; cbn [fst]; [|exact Stay].
     assert (Quiet : forall okb, propose (nd_of s i) p okb = nd_of s i ->
-              exists gl', FI (upd_node s i (propose (nd_of s i) p okb) []) gl').
-    { intros okb Ep. exists gl. eapply (fi_frame s gl (GPropose i p okb)); eauto.
+              exists gl', FI (upd_node s i (propose (nd_of s i) p okb) []) gl' /\ gl_ext gl gl').
+    { intros okb Ep. exists gl. split; [|apply gl_ext_refl]. eapply (fi_frame s gl (GPropose i p okb)); eauto.
       all: try (intros ? ? ? ? []; fail).
       all: try (intros; apply OutOk_nil; fail).
       all: try (rewrite Ep; apply (K1_refl cfg quorum_ok); fail).
@@ -928,8 +961,10 @@ Proof.
       all: try (cbn [gstep]; unfold valid_id; destruct (N.ltb_spec i (n_nodes cfg)); [reflexivity|lia]). }
     unfold propose in *. destruct (rl (nd_of s i)) eqn:Er; try (apply (Quiet ok); reflexivity).
     destruct ok; [|apply (Quiet false); reflexivity].
-    rewrite <- Er. eexists. apply (fi_propose s gl (GPropose i p true) i p HF Hi Er).
-    cbn [gstep]. unfold valid_id. destruct (N.ltb_spec i (n_nodes cfg)); [|lia]. unfold propose. rewrite Er. reflexivity.
+    rewrite <- Er. eexists. split.
+    + apply (fi_propose s gl (GPropose i p true) i p HF Hi Er).
+      cbn [gstep]. unfold valid_id. destruct (N.ltb_spec i (n_nodes cfg)); [|lia]. unfold propose. rewrite Er. reflexivity.
+    + cbn [log]. rewrite (lm_L3 _ _ _ _ HM0 i Hi Er). apply gl_ext_set_app.
   - (* GDeliver *)
     destruct (nth_error (pool s) (N.to_nat k)) as [[[src dst] m]|] eqn:Ek; cbn [fst]; [|exact Stay].
     pose proof (nth_error_In _ _ Ek) as Hin.
@@ -942,7 +977,7 @@ Proof.
       destruct (h_rv dst (nd_of s dst) t cand lli llt ok) as [nd' r] eqn:Eh.
       destruct (h_rv_resp _ _ _ _ _ _ _ _ _ Eh) as [tt [g [Er Hg]]]. subst r.
       pose proof (h_rv_K1 cfg quorum_ok dst (nd_of s dst) t cand lli llt ok) as HK. rewrite Eh in HK. cbn [fst] in HK.
-      exists gl. eapply (fi_frame s gl (GDeliver k ok)); eauto.
+      exists gl. split; [|apply gl_ext_refl]. eapply (fi_frame s gl (GDeliver k ok)); eauto.
       * intros Hc. destruct HK as [Kl [_ [_ KC]]]. destruct (KC Hc) as [[Hoc Hot]|Hlt].
         -- intros e He. rewrite Kl in He. rewrite Hot. apply (c_cand _ _ _ HC0 dst Hdst Hoc e He).
         -- apply (T1_cand s gl a0 dst); auto.
@@ -958,46 +993,49 @@ Proof.
            eapply (grant_prefix s gl a dst src t lli llt t0 m); eauto.
     + (* RVR *)
       unfold h_rvr in *. destruct (rl (nd_of s dst)) eqn:Er.
-      * exists gl. eapply (fi_frame s gl (GDeliver k ok)); eauto.
+      * exists gl. split; [|apply gl_ext_refl]. eapply (fi_frame s gl (GDeliver k ok)); eauto.
         all: try (intros ? ? ? ? []; fail).
         all: try (intros; apply OutOk_nil; fail).
         all: try (apply (K1_refl cfg quorum_ok); fail).
         all: try (rewrite Er; discriminate).
       * destruct (N.ltb_spec (term (nd_of s dst)) t).
-        -- exists gl. eapply (fi_frame s gl (GDeliver k ok)); eauto.
+        -- exists gl. split; [|apply gl_ext_refl]. eapply (fi_frame s gl (GDeliver k ok)); eauto.
            all: try (intros ? ? ? ? []; fail).
            all: try (intros; apply OutOk_nil; fail).
            all: try (apply K1_follower; cbn; auto; lia).
            all: try (cbn; discriminate).
         -- destruct (g && N.eqb t (term (nd_of s dst)) && negb (memb src (votes (nd_of s dst)))).
            ++ destruct (N.leb (quorum cfg) (llen (votes (nd_of s dst) ++ [src]))) eqn:Eq.
-              ** eexists. eapply (fi_leader s gl (GDeliver k ok)); eauto.
-                 cbn. destruct (votes (nd_of s dst)); discriminate.
-              ** exists gl. eapply (fi_frame s gl (GDeliver k ok)); eauto.
+              ** match goal with |- exists gl', FI (upd_node s dst ?x []) gl' /\ _ =>
+                   assert (FL : FI (upd_node s dst x []) (gl_set gl (term x) (log x)) /\ gl (term x) = []) end.
+                 { eapply (fi_leader s gl (GDeliver k ok)); eauto.
+                   all: try (cbn; destruct (votes (nd_of s dst)); discriminate). }
+                 destruct FL as [FL Hemp]. eexists. split; [exact FL|apply gl_ext_set_empty; exact Hemp].
+              ** exists gl. split; [|apply gl_ext_refl]. eapply (fi_frame s gl (GDeliver k ok)); eauto.
                  all: try (intros ? ? ? ? []; fail).
                  all: try (intros; apply OutOk_nil; fail).
                  all: try (apply (K1_same cfg quorum_ok); cbn; auto; fail).
                  all: try (cbn [rl log term]; intros _; apply (c_cand _ _ _ HC0 dst Hdst Er)).
-           ++ exists gl. eapply (fi_frame s gl (GDeliver k ok)); eauto.
+           ++ exists gl. split; [|apply gl_ext_refl]. eapply (fi_frame s gl (GDeliver k ok)); eauto.
               all: try (intros ? ? ? ? []; fail).
               all: try (intros; apply OutOk_nil; fail).
               all: try (apply (K1_refl cfg quorum_ok); fail).
               all: try (intros _; apply (c_cand _ _ _ HC0 dst Hdst Er)).
-      * exists gl. eapply (fi_frame s gl (GDeliver k ok)); eauto.
+      * exists gl. split; [|apply gl_ext_refl]. eapply (fi_frame s gl (GDeliver k ok)); eauto.
         all: try (intros ? ? ? ? []; fail).
         all: try (intros; apply OutOk_nil; fail).
         all: try (apply (K1_refl cfg quorum_ok); fail).
         all: try (rewrite Er; discriminate).
     + (* PV *)
       unfold h_pv in *. destruct (last_info (log (nd_of s dst))) as [mli mlt].
-      exists gl. eapply (fi_frame s gl (GDeliver k ok)); eauto.
+      exists gl. split; [|apply gl_ext_refl]. eapply (fi_frame s gl (GDeliver k ok)); eauto.
       * apply (K1_refl cfg quorum_ok).
       * apply (c_cand _ _ _ HC0 dst Hdst).
       * intros d t0 fol mi [E|[]]. discriminate.
       * intros a HR HI HM HC. constructor; intros; match goal with H : In _ [_] |- _ => destruct H as [E|[]]; discriminate end.
     + (* PVR *)
       pose proof (h_pvr_K1 cfg quorum_ok dst (nd_of s dst) src t g) as HK.
-      exists gl. eapply (fi_frame s gl (GDeliver k ok)); eauto.
+      exists gl. split; [|apply gl_ext_refl]. eapply (fi_frame s gl (GDeliver k ok)); eauto.
       all: try (intros ? ? ? ? []; fail).
       all: try (intros; apply OutOk_nil; fail).
       intros Hc. destruct HK as [Kl [_ [_ KC]]]. destruct (KC Hc) as [[Hoc Hot]|Hlt].
@@ -1014,7 +1052,7 @@ Proof.
       destruct (N.eqb_spec t (term nd1)) as [Et|Hne].
       * match goal with |- context [if (if N.eqb pi 0 then true else ?rest) then _ else _] =>
           destruct (if N.eqb pi 0 then true else rest) eqn:Elok end.
-        -- rewrite <- Et in *. eexists. eapply (fi_ae s gl (GDeliver k ok) dst _ src t pi pt es _ lc ldr); eauto.
+        -- rewrite <- Et in *. exists gl. split; [|apply gl_ext_refl]. eapply (fi_ae s gl (GDeliver k ok) dst _ src t pi pt es _ lc ldr); eauto.
            all: try (cbn [log]; rewrite Hl1; reflexivity).
            all: try (unfold nd in *; exact Ht1).
            rewrite Hl1 in Elok. unfold nd in *. destruct (N.eqb_spec pi 0) as [->|Hpi]; [left; reflexivity|right].
@@ -1024,17 +1062,17 @@ Proof.
            ++ apply N.eqb_eq in Elok. cbn. congruence.
            ++ exfalso. unfold ent_at in Ex. destruct (N.to_nat pi) as [|kk] eqn:Ekk; [lia|].
               apply nth_error_None in Ex. unfold llen in Hle. lia.
-        -- exists gl. eapply (fi_frame s gl (GDeliver k ok)); eauto.
+        -- exists gl. split; [|apply gl_ext_refl]. eapply (fi_frame s gl (GDeliver k ok)); eauto.
            ++ apply K1_follower; cbn; auto.
            ++ cbn. discriminate.
            ++ intros d t0 fol mi [E|[]]. discriminate.
-      * exists gl. eapply (fi_frame s gl (GDeliver k ok)); eauto.
+      * exists gl. split; [|apply gl_ext_refl]. eapply (fi_frame s gl (GDeliver k ok)); eauto.
         -- unfold nd1 in *. destruct (N.ltb_spec (term nd) t); [cbn in Hne; congruence|apply (K1_refl cfg quorum_ok)].
         -- unfold nd1 in *. destruct (N.ltb_spec (term nd) t); [cbn in Hne; congruence|apply (c_cand _ _ _ HC0 dst Hdst)].
         -- intros d t0 fol mi [E|[]]. discriminate.
     + (* AER *)
       pose proof (h_aer_K1 cfg ru quorum_ok dst (nd_of s dst) src t succ mi) as HK.
-      exists gl. eapply (fi_frame s gl (GDeliver k ok)); eauto.
+      exists gl. split; [|apply gl_ext_refl]. eapply (fi_frame s gl (GDeliver k ok)); eauto.
       all: try (intros ? ? ? ? []; fail).
       all: try (intros; apply OutOk_nil; fail).
       intros Hc. destruct HK as [Kl [_ [_ KC]]]. destruct (KC Hc) as [[Hoc Hot]|Hlt].
@@ -1042,7 +1080,7 @@ Proof.
       * apply (T1_cand s gl a0 dst); auto.
   - (* GRestart *)
     unfold valid_id. destruct (N.ltb_spec i (n_nodes cfg)) as [Hi|]; cbn [fst]; [|exact Stay].
-    exists gl. eapply (fi_frame s gl (GRestart i)); eauto.
+    exists gl. split; [|apply gl_ext_refl]. eapply (fi_frame s gl (GRestart i)); eauto.
     all: try (intros ? ? ? ? []; fail).
     all: try (intros; apply OutOk_nil; fail).
     all: try (apply K1_follower; cbn; auto; lia).
@@ -1077,7 +1115,7 @@ Proof.
   intros ops. unfold grun.
   assert (G : forall ops s gl, FI s gl -> exists gl', FI (fold_left (fun s o => fst (gstep cfg ru s o)) ops s) gl').
   { induction ops0 as [|o ops0 IH]; intros s gl H; cbn [fold_left]; [eauto|].
-    destruct (fi_step s gl o H) as [gl1 H1]. eapply IH; eauto. }
+    destruct (fi_step s gl o H) as [gl1 [H1 _]]. eapply IH; eauto. }
   eapply G. apply FI_init.
 Qed.
 
